@@ -640,6 +640,7 @@ impl Server {
         let mut should_close = false;
         let mut timeout_check = false;
         let mut conn_closed = false;
+        let mut protocol_error: Option<String> = None;
         
         // First phase: read and parse with the lock
         let read_result = self.connections.with_connection(id, |conn| -> Result<()> {
@@ -690,9 +691,10 @@ impl Server {
                                         return Err(e);
                                     },
                                     _ => {
-                                        // Other parsing errors - log but don't immediately close connection
-                                        // This improves tolerance for pipelining edge cases
+                                        // The bytes violate the protocol: the frames parsed so far are still
+                                        // served, then the client is told and the connection is closed
                                         eprintln!("Parse warning for connection {}: {}", id, e);
+                                        protocol_error = Some(e.to_string());
                                         break;
                                     }
                                 }
@@ -822,6 +824,12 @@ impl Server {
             #[cfg(ferrous_verif)]
             verif_guard.done(&response);
             responses.push(response);
+        }
+        
+        // A protocol violation is answered with an error after the replies of the frames before it
+        if let Some(msg) = protocol_error {
+            responses.push(RespFrame::error(format!("ERR {}", msg.replace(|c| c == '\r' || c == '\n', " "))));
+            should_close = true;
         }
         
         // Third phase: send responses with special handling for commands needing immediate delivery
